@@ -609,3 +609,252 @@ pub fn run_case(case: &Case, std_cfg: bool, trace: bool) -> RunOut {
         waker_changes_while_parked,
     }
 }
+
+// ---------------------------------------------------------------- storm mode
+//
+// Truly concurrent wake-ups ("from another thread"). The scripted schedule is
+// replaced by this loop: after every poll the wakers of the most recent poll
+// of all live pending children are handed to two helper threads, which invoke
+// them at a moment the harness does not control, while the task thread is
+// already polling the combinator again (because an earlier wake-up arrived, or
+// spuriously, with a fresh task waker). All bookkeeping stays on the task
+// thread; the helpers only ever touch the `Waker` clones they were given.
+//
+// The verdict does not depend on timing: when every waker that was handed out
+// has been invoked (the helpers are idle), the last poll answered Pending and
+// the task waker of that poll has not been woken, no wake-up is outstanding
+// any more - that is the quiescence of oracle P, reached through real
+// interleavings. A wall clock is never consulted.
+
+struct StormJob {
+    waker: Waker,
+    spin: u32,
+}
+
+struct StormPool {
+    tx: Vec<std::sync::mpsc::Sender<StormJob>>,
+    outstanding: Arc<std::sync::atomic::AtomicUsize>,
+    panicked: Arc<AtomicBool>,
+}
+
+impl StormPool {
+    fn new(helpers: usize) -> StormPool {
+        let outstanding = Arc::new(std::sync::atomic::AtomicUsize::new(0));
+        let panicked = Arc::new(AtomicBool::new(false));
+        let mut tx = Vec::new();
+        for _ in 0..helpers {
+            let (s, r) = std::sync::mpsc::channel::<StormJob>();
+            let out = outstanding.clone();
+            let pan = panicked.clone();
+            std::thread::spawn(move || {
+                while let Ok(job) = r.recv() {
+                    for _ in 0..job.spin {
+                        std::hint::spin_loop();
+                    }
+                    let ok = catch_unwind(AssertUnwindSafe(|| {
+                        job.waker.wake_by_ref();
+                        drop(job.waker);
+                    }))
+                    .is_ok();
+                    if !ok {
+                        pan.store(true, Ordering::SeqCst);
+                    }
+                    out.fetch_sub(1, Ordering::SeqCst);
+                }
+            });
+            tx.push(s);
+        }
+        StormPool { tx, outstanding, panicked }
+    }
+    fn send(&self, k: usize, waker: Waker, spin: u32) {
+        self.outstanding.fetch_add(1, Ordering::SeqCst);
+        if self.tx[k % self.tx.len()].send(StormJob { waker, spin }).is_err() {
+            self.outstanding.fetch_sub(1, Ordering::SeqCst);
+        }
+    }
+    fn idle(&self) -> bool {
+        self.outstanding.load(Ordering::SeqCst) == 0
+    }
+}
+
+thread_local! {
+    static STORM: std::cell::RefCell<Option<StormPool>> = std::cell::RefCell::new(None);
+}
+
+fn with_pool<R>(f: impl FnOnce(&StormPool) -> R) -> R {
+    STORM.with(|p| {
+        let mut g = p.borrow_mut();
+        if g.is_none() {
+            *g = Some(StormPool::new(2));
+        }
+        f(g.as_ref().unwrap())
+    })
+}
+
+impl Exec {
+    /// hand the not-yet-sent wakers of the most recent poll of every live
+    /// pending child to the helpers; returns how many were sent
+    fn storm_send(&mut self, bytes: &mut dyn FnMut() -> u8) -> usize {
+        let jobs: Vec<Waker> = world::with(|w| {
+            let mut v = Vec::new();
+            let leaves = w.leaves.clone();
+            for l in leaves {
+                let live = w.live(l);
+                let n = &mut w.nodes[l];
+                let pending = matches!(n.polls.last().map(|p| &p.answer), Some(Answer::Pend(k)) if *k != PendKind::Never);
+                if !pending || !live {
+                    continue;
+                }
+                if let Some(rec) = n.wakers.last_mut() {
+                    if !rec.sent && rec.fires.is_empty() {
+                        rec.sent = true;
+                        // selectivity stays conservative: the invocation is
+                        // counted now although it happens a little later
+                        n.fire_count += 1;
+                        if let Some(wk) = rec.waker.clone() {
+                            v.push(wk);
+                        }
+                    }
+                }
+            }
+            if w.trace_on && !v.is_empty() {
+                w.trace.push(format!("  {} waker(s) handed to the helper threads", v.len()));
+            }
+            v
+        });
+        let n = jobs.len();
+        with_pool(|p| {
+            for (i, wk) in jobs.into_iter().enumerate() {
+                let b = bytes();
+                p.send(i + (b & 1) as usize, wk, ((b >> 1) as u32) * 3);
+            }
+        });
+        n
+    }
+}
+
+pub fn run_case_storm(case: &Case, std_cfg: bool, trace: bool) -> RunOut {
+    world::reset(std_cfg, trace);
+    let mut ex = Exec::new(case);
+    let mut bi = 0usize;
+    let drain = case.drain.clone();
+    let sched_bytes: Vec<u8> = case
+        .schedule
+        .iter()
+        .map(|a| match a {
+            Action::Poll { reuse } => *reuse as u8,
+            Action::Fire { leaf, .. } => *leaf,
+            Action::Drop => 0xfd,
+            Action::FireAll => 0x7f,
+        })
+        .collect();
+    let mut next_byte = move || {
+        let b = if bi < sched_bytes.len() { sched_bytes[bi] } else { drain.get((bi - sched_bytes.len()) % drain.len().max(1)).cloned().unwrap_or(0) };
+        bi += 1;
+        b
+    };
+    let wants_drop = case.schedule.iter().any(|a| matches!(a, Action::Drop));
+    let drop_after = case.schedule.iter().position(|a| matches!(a, Action::Drop)).unwrap_or(0);
+    let bound = case.root.script_steps() * 6 + 64;
+    let mut steps = 0usize;
+    let mut polls = 0usize;
+    let mut quiescent = false;
+    loop {
+        if !ex.alive() {
+            break;
+        }
+        steps += 1;
+        if steps > bound {
+            ex.inconclusive = Some("step bound hit in storm mode");
+            break;
+        }
+        if wants_drop && polls > drop_after {
+            // cancellation while wake-ups are in flight
+            ex.drop_top();
+            break;
+        }
+        if ex.runnable() {
+            ex.poll(next_byte() & 3 == 0);
+            polls += 1;
+            ex.storm_send(&mut next_byte);
+            // now and then poll again at once, spuriously and with a fresh task
+            // waker, while the helpers are still at work
+            let extra = match next_byte() {
+                0..=127 => 0,
+                128..=215 => 1,
+                _ => 2,
+            };
+            for _ in 0..extra {
+                if ex.alive() && world::with(|w| matches!(w.nodes[ex.top_id].last_answer(), Some(a) if a.is_pend())) {
+                    ex.poll(false);
+                    polls += 1;
+                    ex.storm_send(&mut next_byte);
+                }
+            }
+            continue;
+        }
+        // parked: wait for a wake-up or for the helpers to run dry
+        let mut spins = 0u64;
+        loop {
+            if ex.runnable() {
+                break;
+            }
+            if with_pool(|p| p.idle()) {
+                if !ex.runnable() {
+                    quiescent = true;
+                }
+                break;
+            }
+            spins += 1;
+            if spins % 64 == 0 {
+                std::thread::yield_now();
+            } else {
+                std::hint::spin_loop();
+            }
+        }
+        if quiescent {
+            break;
+        }
+    }
+    // let the helpers finish what they hold (wake-ups after completion / after
+    // the drop must be harmless too)
+    let dropped_early = ex.dropped;
+    let was_alive = ex.alive();
+    if quiescent && was_alive {
+        crate::oracle::check_progress(ex.top_id);
+    }
+    let top = ex.top_id;
+    let inconclusive = ex.inconclusive;
+    let injected_panic = ex.injected_panic;
+    let spurious_polls = ex.spurious_polls;
+    let waker_changes_while_parked = ex.waker_changes_while_parked;
+    let (held, held_r) = ex.finish();
+    let mut spins = 0u64;
+    while !with_pool(|p| p.idle()) {
+        spins += 1;
+        if spins % 64 == 0 {
+            std::thread::yield_now();
+        } else {
+            std::hint::spin_loop();
+        }
+    }
+    if with_pool(|p| p.panicked.swap(false, Ordering::SeqCst)) {
+        world::with(|w| {
+            let f = w.nodes[top].family();
+            w.violate_f(world::Oracle::WakerPanic, f, "invoking a waker from a helper thread, concurrently with polls of the combinator, panicked".into());
+        });
+    }
+    drop(held);
+    drop(held_r);
+    let world = world::take_world();
+    RunOut {
+        world,
+        top,
+        inconclusive,
+        quiescent: quiescent && was_alive,
+        dropped_early,
+        injected_panic,
+        spurious_polls,
+        waker_changes_while_parked,
+    }
+}
